@@ -1109,12 +1109,25 @@ func memInstr(t *rapid.T, b *wasmenc.B) {
 	}
 }
 
+func insMutation(t *rapid.T, m *wasmgen.Module) ([]byte, string) {
+	in, op := wasmgen.MutateIns(t, m)
+	evid.Label("instruction-mutation:"+op, 1)
+	return in, "ins-" + op
+}
+
 func propSemantic(t *rapid.T) {
 	f := featureSets[rapid.IntRange(1, 2).Draw(t, "feat")]
 	gf, feats := genFeat(f)
 	cfg := smallCfg(t, gf)
 	cfg.MaxFuncs, cfg.MaxStmts, cfg.MaxDepth = rapid.IntRange(1, 4).Draw(t, "mf"), rapid.IntRange(2, 6).Draw(t, "ms"), rapid.IntRange(2, 5).Draw(t, "md")
 	m := wasmgen.Generate(t, cfg)
+	if rapid.IntRange(0, 2).Draw(t, "inslevel") == 0 {
+		in, op := insMutation(t, m)
+		c := &Case{Input: in, Features: uint64(feats), Origin: "semantic:" + op}
+		evid.Journal(c)
+		finish(t, c, RunCase(c))
+		return
+	}
 	in, op, valid := semanticMutation(t, m.Enc)
 	// (the typed kinds know whether their module is valid: a valid one must be accepted)
 	c := &Case{Input: in, Features: uint64(feats), Origin: "semantic:" + op, Valid: valid}
